@@ -107,7 +107,11 @@ CHECK_DEADLOCK FALSE
     total += n5
     if int(st5["crashruns"]) == 0:
         raise Inconclusive("vacuity: no crash inside a reorg with transactions was exercised")
+    # extension beyond the listed property: the gateway request queue in front of the pool
+    import extensions
+    ext_rq = extensions.reqqueue(ctx)
     coverage = {
+        "extension_request_queue": ext_rq,
         "states": sum(r["distinct"] for r in runs),
         "transitions": sum(r["generated"] for r in runs),
         "traces_validated_against_impl": stat["histories"] + stat["schedules"],
